@@ -147,9 +147,9 @@ Section C16.
     - (* RSet *) unfold unsupported; intros H; discriminate H.
     - (* RDisc *)
       destruct (hash32 env f [] (RDisc ss disc mapping smapping)) as [uh|e]; cbn [bind]; [|discriminate].
-      destruct (smap _ c smapping) as [[refs cr]|e] eqn:E; cbn [bind fst snd]; [|discriminate].
+      destruct (smap _ c (variant_labels smapping)) as [[refs cr]|e] eqn:E; cbn [bind fst snd]; [|discriminate].
       intros [= <- <-]. eapply smap_R; [|exact E].
-      intros [key vr] c0 y c0' _. cbn [fst snd].
+      intros [[key vr] label] c0 y c0' _. cbn [fst snd].
       assert (Ens : forall name target c1,
                  (assoc name env = Some target \/ is_synthetic name) ->
                  (if has_definition c0 name || is_in_progress c0 name then Ok c0
@@ -295,15 +295,15 @@ Section C16.
     - unfold unsupported; intros H; discriminate H.
     - (* RDisc *)
       destruct (hash32 env f1 [] (RDisc ss disc mapping smapping)) as [uh1|e] eqn:U1; cbn [bind]; [|discriminate].
-      destruct (smap _ c1 smapping) as [[refs1 cr1]|e] eqn:E1; cbn [bind fst snd]; [|discriminate].
+      destruct (smap _ c1 (variant_labels smapping)) as [[refs1 cr1]|e] eqn:E1; cbn [bind fst snd]; [|discriminate].
       intros [= <- <-].
       destruct (hash32 env f2 [] (RDisc ss disc mapping smapping)) as [uh2|e] eqn:U2; cbn [bind]; [|discriminate].
-      destruct (smap _ c2 smapping) as [[refs2 cr2]|e] eqn:E2; cbn [bind fst snd]; [|discriminate].
+      destruct (smap _ c2 (variant_labels smapping)) as [[refs2 cr2]|e] eqn:E2; cbn [bind fst snd]; [|discriminate].
       intros [= <- <-].
       assert (uh1 = uh2) by (eapply Hhash; eassumption). subst uh2.
       assert (refs1 = refs2).
       { eapply smap_indep; [|exact E1|exact E2].
-        intros [key vr] ca cb ya ca' yb cb' _. cbn [fst snd].
+        intros [[key vr] label] ca cb ya ca' yb cb' _. cbn [fst snd].
         destruct (is_ref_node vr) as [name|].
         - destruct (assoc name env) as [target|]; [|discriminate].
           match goal with |- (do c1 <- ?e; _) = _ -> _ => destruct e end; cbn [bind]; [|discriminate].
